@@ -210,19 +210,17 @@ pub fn reset_thread_state() {
 
 // -------------------------------------------------- storage of pinned futures
 
-thread_local! {
-    /// When set, the memory of a dropped future is freed immediately (valgrind
-    /// / Miri mode: a later access by the library is an invalid read/write).
-    /// Otherwise it is quarantined until the system is torn down, so that the
-    /// structural check can inspect a dangling queue without touching freed
-    /// memory.
-    static FREE_ON_DROP: Cell<bool> = const { Cell::new(false) };
-}
+/// When set, the memory of a dropped future is freed immediately (valgrind /
+/// Miri mode: a later access by the library is an invalid read/write).
+/// Otherwise it is quarantined until the system is torn down, so that the
+/// structural check can inspect a dangling queue without touching freed
+/// memory.
+static FREE_ON_DROP: std::sync::atomic::AtomicBool = std::sync::atomic::AtomicBool::new(false);
 pub fn set_free_on_drop(v: bool) {
-    FREE_ON_DROP.with(|f| f.set(v))
+    FREE_ON_DROP.store(v, std::sync::atomic::Ordering::SeqCst)
 }
 pub fn free_on_drop() -> bool {
-    FREE_ON_DROP.with(|f| f.get())
+    FREE_ON_DROP.load(std::sync::atomic::Ordering::SeqCst)
 }
 
 /// Heap storage for a pinned future whose destructor can be run while the
